@@ -1,11 +1,15 @@
-import ScriggoV.Lemmas.ExprPP
+import ScriggoV.Lemmas.ExprPPMain
 import ScriggoV.Lemmas.ExprPPNorm
 import ScriggoV.Spec.GoPrecedence
 /-!
 # C27 — printing a parsed syntax tree gives source that parses back to the same tree
 
-Fragment: identifiers, int literals, the 8 unary and 23 binary operators, calls (any number of
-arguments, variadic), index, selector, parentheses (any count on any node). `print` is
+Fragment: identifiers, literals of the five kinds (opaque tokens), the 8 unary and 23 binary
+operators (template operators included), calls (any number of arguments, variadic), conversions,
+index, slicing (2 and 3 indexes), selector, type assertion, the template `default` expression,
+type expressions `T`, `p.T`, `*T`, `(T)`, `[]T`, `[n]T`, `[...]T`, `map[K]V`, `chan T`, `<-chan T`,
+`chan<- T`, `interface{}`, parentheses (any count on any node). Function, struct and composite
+literals and function types are outside. `print` is
 `ast.String()` as tokens, `parse` is `parseExpr` (Model/ExprPP.lean); the precedence table, the
 operator spellings and the three parenthesisation conditions are regenerated from `ast/ast.go`
 (Gen/Precedence.lean) on every check.
@@ -88,8 +92,9 @@ call, index or selector is not a unary/binary operator, except `*x`/`<-x` under 
 `Call.String` parenthesises). The printed form of `e` parses, and the result is `e` with exactly the
 parentheses the printer wrote. Missing for `FullStatement`: the trees that are not `Plain`. -/
 theorem roundtrip_partial (e : Expr) (wf : WF e) (pl : Plain e) : parse (print e) = some (norm e) := by
-  obtain ⟨x, gs, hr, hc⟩ := (main e).closed ⟨wf, pl⟩ []
-  simp [parse, St.init, hr, finish, hc]
+  obtain ⟨s, hr, _, hf⟩ := (invariants e).2.2 wf pl []
+  have hr' : run St.init (print e) = some s := hr
+  simp [parse, hr', hf, closeDflt]
 
 /-- … which is `e` itself when parentheses counts are ignored (the property's "structurally
 identical tree") -/
@@ -118,20 +123,27 @@ theorem exactStatement_false : ¬ ExactStatement := by
 
 /-! ## the statements are not vacuous -/
 
-/-- `(*x0)(x1 - (x1 - 2), x2[3]...).x4 * -(-x2)` -/
+/-- `(*x0)(x1 - (x1 - 2), x2[3:x1 default 4]...).x4.(map[x0][]*x1.x2) * -(-[2]chan (<-chan x3)(x5))` -/
 def sample : Expr :=
   .binary .mul
-    (.selector (.call (.unary .pointer (.ident 0)) [.binary .sub (.ident 1) (.binary .sub (.ident 1) (.lit 2)),
-      .index (.ident 2) (.lit 3)] true) 4)
-    (.unary .minus (.unary .minus (.ident 2)))
+    (.typeAssert
+      (.selector (.call (.unary .pointer (.ident 0)) [.binary .sub (.ident 1) (.binary .sub (.ident 1) (.lit .IntLiteral 2)),
+        .slicing (.ident 2) (some (.lit .IntLiteral 3)) (some (.dflt (.ident 1) (.lit .FloatLiteral 4))) none false] true) 4)
+      (.mapT (.ident 0) (.sliceT (.unary .pointer (.selector (.ident 1) 2)))))
+    (.unary .minus (.unary .minus
+      (.call (.arrayT (some (.lit .IntLiteral 2)) (.chanT .NoDirection (.chanT .ReceiveDirection (.ident 3)))) [.ident 5] false)))
 
-example : WF sample := by simp [sample, WF, WFArgs]
-example : Plain sample := by simp [sample, Plain, PlainArgs, isOperator, Expr.prec?, callParens, Expr.unaryOp?]
+example : WF sample := by simp [sample, WF, WFArgs, WFOpt, IsType, Expr.core, dfltLhsOk]
+example : Plain sample := by
+  simp [sample, Plain, PlainArgs, PlainOpt, isOperator, Expr.prec?, callParens, Expr.core, isDflt, endsTy, startsChan]
 
-example : print sample =
-    [.lparen, .op .star, .ident 0, .rparen, .lparen, .ident 1, .op .minus, .lparen, .ident 1, .op .minus,
-     .int 2, .rparen, .comma, .ident 2, .lbrack, .int 3, .rbrack, .ellipsis, .rparen,
-     .period, .ident 4, .op .star, .op .minus, .lparen, .op .minus, .ident 2, .rparen] := by
+example : (parse (print sample)).isSome = true := by
+  rw [roundtrip_partial sample (by simp [sample, WF, WFArgs, WFOpt, IsType, Expr.core, dfltLhsOk])
+    (by simp [sample, Plain, PlainArgs, PlainOpt, isOperator, Expr.prec?, callParens, Expr.core, isDflt, endsTy, startsChan])]
+  rfl
+
+example : print (.typeAssert (.ident 0) (.chanT .NoDirection (.chanT .ReceiveDirection (.ident 1)))) =
+    [.ident 0, .period, .lparen, .kwChan, .lparen, .op .arrow, .kwChan, .ident 1, .rparen, .rparen] := by
   decide
 
 /-- the parser is not the constant function: precedence decides the grouping -/
